@@ -21,7 +21,7 @@ theorem T1_exactly_once_in_order (cfg : Cfg) (hcob : cfg.closeOnBackpressure = t
     (is : List In) :
     let s := (run cfg s0 is).1
     (s.closed = false → s.wire ++ s.wq.flatten = s.accepted.flatten) ∧ s.wire <+: s.accepted.flatten :=
-  (run_good cfg hcob is s0 (fresh_good s0 h0)).1
+  (run_good cfg hcob is s0 (fresh_good cfg s0 h0)).1
 
 /-- the default configuration satisfies the policy hypothesis (regenerated from `transport_types.hpp`) -/
 theorem T1_default_policy : ({} : Cfg).closeOnBackpressure = true := by decide
@@ -41,8 +41,8 @@ example :
 
 /-- **T1, inductive form.** The invariant (`Inv` = conservation while open + prefix always, `Armed` = T3) is preserved by
 every single step from every state that satisfies it — not only from fresh states. -/
-theorem T1_step (cfg : Cfg) (hcob : cfg.closeOnBackpressure = true) (s : St) (i : In) (h : Good s) :
-    Good (step cfg s i).1 :=
+theorem T1_step (cfg : Cfg) (hcob : cfg.closeOnBackpressure = true) (s : St) (i : In) (h : Good cfg s) :
+    Good cfg (step cfg s i).1 :=
   step_good cfg hcob s i h
 
 /-- **T2 (no clear text on a TLS session).** On a session with TLS (`tls ≠ none`: handshake or open), no input history
@@ -66,10 +66,24 @@ example :
 /-- **T3 (no lost EPOLLOUT re-arm, ET and LT).** After every step of every history from a fresh session: if the session
 is open and its queue is not empty then EPOLLOUT is in the registered mask, and that registration was issued by an
 `epoll_ctl` AFTER the last write attempt (so an edge-triggered epoll reports the socket writable again). -/
-theorem T3_rearm (cfg : Cfg) (hcob : cfg.closeOnBackpressure = true) (s0 : St) (h0 : s0.Fresh) (is : List In) :
+theorem T3_rearm (cfg : Cfg) (hcob : cfg.closeOnBackpressure = true) (hmod : cfg.modSkipsUnchanged = false)
+    (s0 : St) (h0 : s0.Fresh) (is : List In) :
     let s := (run cfg s0 is).1
     s.closed = false → s.wq ≠ [] → s.interestOut = true ∧ s.rearmed = true :=
-  (run_good cfg hcob is s0 (fresh_good s0 h0)).2
+  (run_good cfg hcob is s0 (fresh_good cfg s0 h0)).2 hmod
+
+/-- the code as it is issues the `epoll_ctl(MOD)` unconditionally (regenerated from `updateInterest` / `modEpoll`) -/
+theorem T3_default_mod : ({} : Cfg).modSkipsUnchanged = false := by decide
+
+/-- **T3 needs the unconditional MOD.** If `updateInterest` skipped the `epoll_ctl` when the mask is unchanged (a per-session
+mask cache), then after a short write issued by the drain loop — EPOLLOUT already registered — nothing re-arms the
+edge-triggered EPOLLOUT: the session is open, bytes are queued, and no `epoll_ctl` follows the last write attempt. -/
+theorem T3_needs_unconditional_mod :
+    ∃ (cfg : Cfg) (is : List In), cfg.closeOnBackpressure = true ∧ cfg.modSkipsUnchanged = true ∧
+      let s := (run cfg (initAccepted false) is).1
+      s.closed = false ∧ s.wq = [[3]] ∧ s.interestOut = true ∧ s.rearmed = false :=
+  ⟨{ modSkipsUnchanged := true, closeOnBackpressure := true },
+   [.cmdSend [1, 2, 3] (.wrote 1), .event { out := true } true .established .done [] [.wrote 1]], rfl, rfl, by decide⟩
 
 /-- a writable event on an established, open session -/
 def evWritable (ws : List WAns) : In := .event { out := true } true .established .done [] ws
@@ -121,7 +135,7 @@ theorem T3_drains (cfg : Cfg) (s : St) (hc : s.closed = false) (hh : s.tls ≠ .
   rw [hs']
   unfold writePending
   simp only [hd.2.1]
-  refine ⟨hd.1, hc, ?_⟩
+  refine ⟨by simpa using hd.1, by simpa using hc, ?_⟩
   simp [St.wire, flat_rev_append, hd.2.2]
 
 /-- a closed session ignores every further input -/
@@ -175,6 +189,17 @@ theorem T3_fair_drain (cfg : Cfg) : ∀ (evs : List (List WAns)) (s : St),
         simp only [List.length_cons] at hlen
         omega
 
+/-- **T3 (fair drain, reachable states).** The same for every state reachable from a fresh session by ANY history: that every
+queued buffer is non-empty is not an assumption there but a consequence of `send` not enqueueing `n == 0` (`run_ne`). -/
+theorem T3_fair_drain_reachable (cfg : Cfg) (s0 : St) (h0 : s0.Fresh) (is : List In) (evs : List (List WAns))
+    (hall : ∀ ws ∈ evs, ∃ n rest, ws = .wrote (n + 1) :: rest) :
+    let s := (run cfg s0 is).1
+    s.closed = false → s.tls ≠ .handshake → s.connectPending = false → s.pending ≤ evs.length →
+    (run cfg s (evs.map evWritable)).1.closed = true ∨ (run cfg s (evs.map evWritable)).1.wq = [] := by
+  intro s hc hh hp hlen
+  have hne : NonEmptyBufs s.wq := run_ne cfg is s0 (by rw [h0.1]; exact ne_nil)
+  exact T3_fair_drain cfg evs s hall hc hh hp hne hlen
+
 /-- non-vacuity of T3-fair: 5 pending bytes, five events that each take one byte and are then refused -/
 example : (run {} ({ wq := [[1, 2], [3, 4, 5]], wantWrite := true, interestOut := true } : St)
     ((List.replicate 5 [WAns.wrote 1, WAns.again]).map evWritable)).1.wq = [] := by decide
@@ -207,18 +232,28 @@ example : let r := readAvail {} ({} : St) [.data [1], .eof]
 /-- **T5 (per-thread FIFO under one mutex).** `enqueue` = lock `_cmdMutex`, read the end position, store + publish,
 unlock; `process` swaps the queue under the same mutex. For every number of sender threads and EVERY schedule of these
 micro-steps (a step that is not enabled is a stutter), the commands of each thread `t` in dispatched-then-queued order
-are exactly its first `k` sequence numbers `0, 1, …, k-1` in order: nothing lost, duplicated or reordered within a
-thread, so the accepted order is an interleaving of the per-thread send orders. The lock flag is the one the
+are exactly the sequence numbers `0, 1, …, k-1` in order, where `k` is the number of `enqueue` calls of `t` that have
+stored their command (`next` completed calls, plus one if `t` stands between its store and its unlock): nothing lost,
+duplicated or reordered within a thread; and every queued or dispatched command belongs to one of the `n` threads. So the
+accepted order is exactly an interleaving of the per-thread send orders. The lock flag is the one the
 translator extracts from `enqueue()`. -/
 theorem T5_per_thread_fifo (n : Nat) (sched : List Enq.Actor) (t : Enq.Tid) (ht : t < n) :
     let q := Enq.run Gen.TcpSession.enqueuePushUnderCmdMutex (Enq.init n) sched
-    ∃ k, Enq.seqOf t (q.taken ++ q.cmds) = List.range k := by
-  show ∃ k, Enq.seqOf t ((Enq.run true (Enq.init n) sched).taken ++ (Enq.run true (Enq.init n) sched).cmds) = List.range k
+    (∃ th, q.thr[t]? = some th ∧
+      Enq.seqOf t (q.taken ++ q.cmds) = List.range (th.next + (if th.pc = .stored then 1 else 0))) ∧
+    (∀ c ∈ q.taken ++ q.cmds, c.1 < n) := by
+  show (∃ th, (Enq.run true (Enq.init n) sched).thr[t]? = some th ∧
+      Enq.seqOf t ((Enq.run true (Enq.init n) sched).taken ++ (Enq.run true (Enq.init n) sched).cmds) =
+        List.range (th.next + (if th.pc = .stored then 1 else 0))) ∧
+    (∀ c ∈ (Enq.run true (Enq.init n) sched).taken ++ (Enq.run true (Enq.init n) sched).cmds, c.1 < n)
   have hinv : Enq.EInv (Enq.run true (Enq.init n) sched) := Enq.run_inv sched (Enq.init n) (Enq.init_inv n)
   have hlen : (Enq.run true (Enq.init n) sched).thr.length = n := by
     rw [Enq.run_thr_length]; simp [Enq.init]
   have hlt : t < (Enq.run true (Enq.init n) sched).thr.length := by rw [hlen]; exact ht
-  exact ⟨_, hinv.fifo t _ (List.getElem?_eq_getElem hlt)⟩
+  refine ⟨⟨_, List.getElem?_eq_getElem hlt, hinv.fifo t _ (List.getElem?_eq_getElem hlt)⟩, ?_⟩
+  intro c hc
+  have := hinv.dom c hc
+  rw [hlen] at this; exact this
 
 /-- `process()` takes the queue under the same mutex (regenerated fact) -/
 theorem T5_swap_locked : Gen.TcpSession.processSwapUnderCmdMutex = true := by decide
@@ -242,7 +277,7 @@ the invariant, any input: after the step either every accepted byte is still acc
 accepted`, session open) or the session is closed; it never becomes closed silently — if it was open before and is
 closed after, the step's outputs contain the close (epoll DEL + close callback); and a closed session emits nothing,
 stays closed and its wire is frozen. -/
-theorem T6_drop_only_with_close (cfg : Cfg) (hcob : cfg.closeOnBackpressure = true) (s : St) (i : In) (h : Good s) :
+theorem T6_drop_only_with_close (cfg : Cfg) (hcob : cfg.closeOnBackpressure = true) (s : St) (i : In) (h : Good cfg s) :
     let r := step cfg s i
     (r.1.closed = false → r.1.wire ++ r.1.wq.flatten = r.1.accepted.flatten) ∧
     (s.closed = false → r.1.closed = true → ∃ w, Out.close w ∈ r.2) ∧
@@ -259,8 +294,8 @@ theorem T6_drop_only_with_close (cfg : Cfg) (hcob : cfg.closeOnBackpressure = tr
 /-- non-vacuity of T6: with `maxWriteQueue = 1` the second queued payload closes the session and the close is emitted -/
 example : let cfg : Cfg := { maxWriteQueue := 1 }
     let s := (run cfg (initAccepted false) [.cmdSend [1, 2] .again]).1
-    Good s ∧ (step cfg s (.cmdSend [3] .again)).2 = [.close .backpressure] ∧ (step cfg s (.cmdSend [3] .again)).1.closed = true := by
-  refine ⟨run_good _ rfl _ _ (fresh_good _ (by simp [initAccepted, St.Fresh])), by decide, by decide⟩
+    Good cfg s ∧ (step cfg s (.cmdSend [3] .again)).2 = [.close .backpressure] ∧ (step cfg s (.cmdSend [3] .again)).1.closed = true := by
+  refine ⟨run_good _ rfl _ _ (fresh_good _ _ (by simp [initAccepted, St.Fresh])), by decide, by decide⟩
 
 /-- **Scope of T1/T6: the policy matters.** With `closeOnBackpressure = false` ("drop oldest") the engine pops the FRONT
 of the queue, which may be the unsent tail of a half-written payload: the wire is then no longer a prefix of the accepted
@@ -279,7 +314,12 @@ comparison or lock scope makes this obligation fail to build): `send` copies all
 enqueue `n == 0`; both `enqueue` overloads `push_back` under `_cmdMutex`, `process` swaps under it; in `doSend` the
 TLS-handshake guard comes before every write call and contains none, the unsent tail is `[begin + n, end)` pushed at the
 FRONT, whole payloads are pushed at the BACK, short-write tests are `n < size`, backpressure is `wq.size() > maxWriteQueue`;
-`writePending` writes the FRONT buffer, erases exactly `[begin, begin + n)` on a short write and pops the front on a full one. -/
+`writePending` writes the FRONT buffer, erases exactly `[begin, begin + n)` on a short write and pops the front on a full one;
+`updateInterest` computes `EPOLLIN | (ET) | (needWrite ? EPOLLOUT)` with `needWrite = wantWrite || !wq.empty() || (Handshake ?
+tlsWantWrite : connectPending)` and ends in ONE unconditional `modEpoll` = `epoll_ctl(EPOLL_CTL_MOD)`, called from exactly the
+sites the model has; `tlsMode` and `tlsState` are only ever set together (None/None by default, mode + Handshake in
+`onListener`/`doConnect`, Open in `driveHandshake`), which is what lets the model merge them into one field; `sendAsync`
+and the `Transport` wrappers only delegate to `send`. -/
 theorem gen_conforms :
     Gen.TcpSession.enqueuePushUnderCmdMutex = true ∧ Gen.TcpSession.processSwapUnderCmdMutex = true ∧
     Gen.TcpSession.enqueueQueueOps = ["push_back", "push_back"] ∧
@@ -291,7 +331,19 @@ theorem gen_conforms :
     Gen.TcpSession.doSendHandshakeBranchWrites = 0 ∧ Gen.TcpSession.doSendHandshakeGuardFirst = true ∧
     Gen.TcpSession.writePendingBuffer = ["front"] ∧ Gen.TcpSession.writePendingEraseFrom = [""] ∧
     Gen.TcpSession.writePendingEraseTo = ["n"] ∧ Gen.TcpSession.writePendingPop = ["pop_front"] ∧
-    Gen.TcpSession.writePendingShortTests = ["<"] := by decide
+    Gen.TcpSession.writePendingShortTests = ["<"] ∧
+    Gen.TcpSession.updateInterestSkipsUnchangedMask = false ∧ Gen.TcpSession.modEpollOp = "EPOLL_CTL_MOD" ∧
+    Gen.TcpSession.updateInterestBaseMask = "EPOLLIN" ∧
+    Gen.TcpSession.updateInterestEdge = ["_config.useEdgeTriggered", "EPOLLET"] ∧
+    Gen.TcpSession.updateInterestNeedWrite = "s->wantWrite || !s->wq.empty()" ∧
+    Gen.TcpSession.updateInterestStateSplit = ["s->tlsState == TlsState::Handshake", "s->tlsWantWrite", "s->connectPending"] ∧
+    Gen.TcpSession.updateInterestOut = ["needWrite", "EPOLLOUT"] ∧
+    Gen.TcpSession.updateInterestCallSites =
+      [("doSend", 4), ("writePending", 4), ("readAvail", 1), ("driveHandshake", 2), ("onSession", 1)] ∧
+    Gen.TcpSession.tlsAssignments = ["onListener:tlsMode=Server", "onListener:tlsState=Handshake",
+      "doConnect:tlsMode=Client", "doConnect:tlsState=Handshake", "driveHandshake:tlsState=Open"] ∧
+    Gen.TcpSession.tlsDefaults = ["None", "None"] ∧
+    Gen.TcpSession.sendAsyncSendCalls = 1 ∧ Gen.TcpSession.transportSendDelegates = ["send", "sendAsync"] := by decide
 
 /-! ## Observations (true of the code as it is; none contradicts the statement of C01) -/
 
@@ -300,7 +352,7 @@ payload is already queued, every event re-registers EPOLLOUT (`needWrite` counts
 epoll reports again at once and the state does not change: the I/O thread spins until the peer answers. No byte is lost
 or reordered; it costs CPU (seen in the traces as runs of `G:0;H:r;E:M:7` wake-ups). -/
 theorem obs_handshake_window_spins (cfg : Cfg) (s : St) (c : CAns) (rs : List RAns) (ws : List WAns)
-    (hc : s.closed = false) (hs : s.tls = .handshake) (hq : s.wq ≠ []) :
+    (hmod : cfg.modSkipsUnchanged = false) (hc : s.closed = false) (hs : s.tls = .handshake) (hq : s.wq ≠ []) :
     let r := step cfg s (.event { out := true } true c .wantR rs ws)
     r.1.interestOut = true ∧ r.1.wq = s.wq ∧ r.1.tls = .handshake ∧ r.1.closed = false ∧
     r.2 = [.soError, .handshake, .interest true cfg.edge] := by
@@ -308,11 +360,11 @@ theorem obs_handshake_window_spins (cfg : Cfg) (s : St) (c : CAns) (rs : List RA
     cases h : s.wq with
     | nil => exact absurd h hq
     | cons _ _ => rfl
-  simp [step, onSession, driveHandshake, updateInterest, hc, hs, hne]
+  simp [step, onSession, driveHandshake, updateInterest, needWrite, hmod, hc, hs, hne]
 
 /-- **Observation: the queue limit is not applied in the handshake window.** Payloads accepted while the handshake is in
 progress are queued without the `maxWriteQueue` test (the handshake branch of `doSend` returns before it). -/
-theorem obs_handshake_queue_unbounded (cfg : Cfg) (p : Bytes) (a : WAns) : ∀ (n : Nat) (s : St),
+theorem obs_handshake_queue_unbounded (cfg : Cfg) (p : Bytes) (a : WAns) (hp : p ≠ []) : ∀ (n : Nat) (s : St),
     s.tls = .handshake → s.closed = false →
     (run cfg s (List.replicate n (.cmdSend p a))).1.wq.length = s.wq.length + n ∧
     (run cfg s (List.replicate n (.cmdSend p a))).1.closed = false
@@ -320,8 +372,9 @@ theorem obs_handshake_queue_unbounded (cfg : Cfg) (p : Bytes) (a : WAns) : ∀ (
   | n + 1, s, hs, hc => by
     have h1 : (step cfg s (.cmdSend p a)).1.tls = .handshake ∧ (step cfg s (.cmdSend p a)).1.closed = false ∧
         (step cfg s (.cmdSend p a)).1.wq.length = s.wq.length + 1 := by
-      simp [step, doSend, hs, hc, updateInterest]
-    have ih := obs_handshake_queue_unbounded cfg p a n _ h1.1 h1.2.1
+      have hpe : p.isEmpty = false := by cases p <;> simp_all
+      simp [step, doSend, hs, hc, hpe]
+    have ih := obs_handshake_queue_unbounded cfg p a hp n _ h1.1 h1.2.1
     simp only [List.replicate_succ, run]
     rw [ih.1, h1.2.2]
     exact ⟨by omega, ih.2⟩
